@@ -301,6 +301,7 @@ func c45Gen(seed uint64, run int, tier string, prop string) *Case {
 	genCommon(r, c.Cfg)
 	ms := r.Pick(256, 1024, 8192)
 	c.Cfg["msize"], c.Cfg["cmsize"] = int64(ms), int64(ms)
+	c.Cfg["smsize"] = int64(r.Pick(ms, ms, 2*ms, 65536)) // the server may be willing to go higher than the client asks for
 	c.Cfg["dotu"] = int64(r.Intn(2))
 	c.Cfg["sdotu"] = 1
 	c.Cfg["auth"] = int64(r.Intn(2))
@@ -517,7 +518,11 @@ func c45Exec(x *Ctx) {
 		return fs.authErrNext
 	}
 	fs.AuthCheckErr = func(inv *Inv) bool { return fs.authErrNext }
-	sys := NewSrvSys(x, fs.OpsValue(auth, true), fs, ms, true, int(c.cfg("maxpend")), int(c.cfg("debug")))
+	smsize := ms
+	if v := uint32(c.cfg("smsize")); v > ms {
+		smsize = v
+	}
+	sys := NewSrvSys(x, fs.OpsValue(auth, true), fs, smsize, true, int(c.cfg("maxpend")), int(c.cfg("debug")))
 	model := &fidModel{auth: auth, msize: ms}
 	for i := 0; i < nconn; i++ {
 		sys.AddConn(0, int(c.cfg("seg")))
